@@ -252,177 +252,6 @@ Example C08_nonvacuous :
   wf_doc (fix_doc (to_schema no_einfo [cls_w; cls_t] (fun _ => []) 5 cls_t)) = true.
 Proof. repeat split; vm_compute; reflexivity. Qed.
 
-   the tie to the source of the per-field schema mappers (generated layer), appended from the contributor's file *)
-(* Property C08 — the tie of the hand-written model Schema/ToSchema.v (fschema, mappable), on which the C08
-   theorems are proved, to the CURRENT text of typedpy/json_schema/json_schema_mapping.py.
-   Gen/SchemaSrc.v is the translation of get_mapper / convert_to_schema / _map_class_reference / every
-   *Mapper.to_schema, re-generated from the source on every run (harness/genmods/py2v_schema.py); these theorems
-   (proved in Schema/SchemaSrcProofs.v) say that it computes the hand model, for EVERY declaration.
-   This block is meant to be appended to Props/C08.v as it is. *)
-From Coq Require Import ZArith NArith String List.
-Import ListNotations.
-From TP Require Import Base.PyVal Base.PyOps Base.PyOps2 Base.PyOpsSchema Fields.FieldAst
-     Schema.Draft4 Schema.ToSchema Gen.SchemaSrc Schema.SchemaSrcProofs.
-
-Section C08_src.
-  Variable pat_text : N -> pystr.                         (* the text of a pattern id *)
-  Variable s2s : pyval -> pyval -> res pyval.             (* structure_to_schema(cls, definitions, sm) *)
-  Variable defs_store : pyval -> pyval -> res unit.       (* definitions[k] = v *)
-  Hypothesis defs_store_ok : forall k v, defs_store k v = Ok tt.
-
-  (* convert_to_schema, as the source is written now, on the object of a declaration the hand model calls mappable:
-     returns exactly the rendering of fschema (same keys, same order, same values) *)
-  Theorem C08_src_to_schema : forall f,
-      mappable f = true -> keys_text_ok pat_text f = true -> refs_ok s2s f ->
-      forall fuel sm, (cfuel f <= fuel)%nat ->
-      convert_to_schema s2s defs_store fuel (field_obj pat_text f) sm = Ok (sch_json pat_text (fschema f)).
-  Proof. exact (generated_convert_to_schema pat_text s2s defs_store defs_store_ok). Qed.
-
-  (* ... and on one it calls unmappable: raises TypeError / NotImplementedError *)
-  Theorem C08_src_unmappable_raises : forall f,
-      mappable f = false -> lits_plain f = true -> keys_text_ok pat_text f = true -> refs_ok s2s f ->
-      forall fuel sm, (cfuel f <= fuel)%nat ->
-      exists e, convert_to_schema s2s defs_store fuel (field_obj pat_text f) sm = Raise e /\ schema_exn e = true.
-  Proof. exact (generated_convert_to_schema_raises pat_text s2s defs_store defs_store_ok). Qed.
-
-  (* get_mapper: the mapper class of every field class (none for Deque, NoneField, Anything) *)
-  Theorem C08_src_get_mapper : forall f,
-      get_mapper (cls_val (field_class f))
-      = match mapper_of f with Some m => Ok (cls_val m) | None => Raise NotImplementedError end.
-  Proof. exact generated_get_mapper. Qed.
-
-  (* the per-mapper statements (rec = convert_to_schema; mc = whatever class the mapper object has) *)
-  Theorem C08_src_NumberMapper : forall rec mc k s c sm,
-      NumberMapper__to_schema s2s defs_store rec (mapper_obj mc (field_obj pat_text (FNumber k s c))) sm
-      = Ok (jkws pat_text (KType TNumber :: tl (num_kws k s c))).
-  Proof. exact (generated_NumberMapper_to_schema pat_text s2s defs_store). Qed.
-
-  Theorem C08_src_IntegerMapper : forall rec mc s c sm,
-      IntegerMapper__to_schema s2s defs_store rec (mapper_obj mc (field_obj pat_text (FNumber KInteger s c))) sm
-      = Ok (jschema pat_text (FNumber KInteger s c)).
-  Proof. exact (generated_IntegerMapper_to_schema pat_text s2s defs_store). Qed.
-
-  Theorem C08_src_StringMapper : forall rec mc c sm,
-      StringMapper__to_schema s2s defs_store rec (mapper_obj mc (field_obj pat_text (FString c))) sm
-      = Ok (jschema pat_text (FString c)).
-  Proof. exact (generated_StringMapper_to_schema pat_text s2s defs_store). Qed.
-
-  Theorem C08_src_BooleanMapper : forall rec self sm,
-      BooleanMapper__to_schema s2s defs_store rec self sm = Ok (jschema pat_text FBoolean).
-  Proof. exact (generated_BooleanMapper_to_schema pat_text s2s defs_store). Qed.
-
-  Theorem C08_src_ArrayMapper_seq : forall rec mc k items sz u add sm,
-      ArrayMapper__to_schema s2s defs_store rec (mapper_obj mc (PStruct (seq_class k) (seq_attrs items sz u add))) sm
-      = (J <- rec items sm ;;
-         Ok (PDict (map (kw_json pat_text) ([KType TArray] ++ uniq_kws u ++ optl add KAddItems ++ size_kws sz)
-                    ++ items_entry J))).
-  Proof. exact (generated_ArrayMapper_to_schema_seq pat_text s2s defs_store). Qed.
-
-  Theorem C08_src_ArrayMapper_tuple : forall rec mc items u sm,
-      ArrayMapper__to_schema s2s defs_store rec
-        (mapper_obj mc (PStruct (s2p "Tuple") [(s2p "items", items); (s2p "uniqueItems", otrue u)])) sm
-      = (J <- rec items sm ;;
-         Ok (PDict (map (kw_json pat_text) ([KType TArray] ++ uniq_kws u ++ [KAddItems false]) ++ items_entry J))).
-  Proof. exact (generated_ArrayMapper_to_schema_tuple pat_text s2s defs_store). Qed.
-
-  Theorem C08_src_ArrayMapper_set : forall rec mc imm items sz sm,
-      ArrayMapper__to_schema s2s defs_store rec
-        (mapper_obj mc (PStruct (set_class imm) ((s2p "items", items) :: size_attrs sz))) sm
-      = (J <- rec items sm ;;
-         Ok (PDict (map (kw_json pat_text) ([KType TArray; KUnique true] ++ size_kws sz) ++ items_entry J))).
-  Proof. exact (generated_ArrayMapper_to_schema_set pat_text s2s defs_store). Qed.
-
-  Theorem C08_src_MapMapper_any : forall rec mc sz sm,
-      MapMapper__to_schema s2s defs_store rec (mapper_obj mc (map_obj PNone sz)) sm = Ok (jschema pat_text (FMapAny sz)).
-  Proof. exact (generated_MapMapper_to_schema_any pat_text s2s defs_store). Qed.
-
-  Theorem C08_src_MapMapper_kv : forall rec mc c V sz sm,
-      key_text_ok pat_text c = true ->
-      (forall J, rec V sm = Ok J -> exists d D, J = PDict (d :: D)) ->
-      MapMapper__to_schema s2s defs_store rec
-        (mapper_obj mc (map_obj (PList [field_obj pat_text (FString c); V]) sz)) sm
-      = (J <- rec V sm ;;
-         Ok (PDict ([kw_json pat_text (KType TObject)]
-                    ++ [(PStr (s2p (if key_constrained c then "patternProperties" else "additionalProperties")), J)]
-                    ++ map (kw_json pat_text) (size_kws sz)))).
-  Proof. exact (generated_MapMapper_to_schema_kv pat_text s2s defs_store). Qed.
-
-  Theorem C08_src_MapMapper_badkey : forall rec mc kf V sz sm,
-      match kf with FString _ => false | _ => true end = true ->
-      MapMapper__to_schema s2s defs_store rec (mapper_obj mc (map_obj (PList [field_obj pat_text kf; V]) sz)) sm
-      = Raise TypeError.
-  Proof. exact (generated_MapMapper_to_schema_badkey pat_text s2s defs_store). Qed.
-
-  Theorem C08_src_EnumMapper_lit : forall rec mc vs sm,
-      forallb plain_lit vs = true ->
-      EnumMapper__to_schema s2s defs_store rec (mapper_obj mc (field_obj pat_text (FEnumLit vs))) sm
-      = if forallb enum_lit_ok vs then Ok (jschema pat_text (FEnumLit vs)) else Raise TypeError.
-  Proof. exact (generated_EnumMapper_to_schema_lit pat_text s2s defs_store). Qed.
-
-  Theorem C08_src_EnumMapper_cls : forall rec mc cls ms sm,
-      EnumMapper__to_schema s2s defs_store rec (mapper_obj mc (field_obj pat_text (FEnumCls cls ms))) sm
-      = Ok (jschema pat_text (FEnumCls cls ms)).
-  Proof. exact (generated_EnumMapper_to_schema_cls pat_text s2s defs_store). Qed.
-
-  Theorem C08_src_AllOfMapper : forall rec mc cls fs sm,
-      AllOfMapper__to_schema s2s defs_store rec (mapper_obj mc (fields_obj cls fs)) sm
-      = (J <- rec fs sm ;; Ok (PDict [(PStr (s2p "allOf"), J)])).
-  Proof. exact (generated_AllOfMapper_to_schema s2s defs_store). Qed.
-
-  Theorem C08_src_OneOfMapper : forall rec mc cls fs sm,
-      OneOfMapper__to_schema s2s defs_store rec (mapper_obj mc (fields_obj cls fs)) sm
-      = (J <- rec fs sm ;; Ok (PDict [(PStr (s2p "oneOf"), J)])).
-  Proof. exact (generated_OneOfMapper_to_schema s2s defs_store). Qed.
-
-  Theorem C08_src_NotFieldMapper : forall rec mc cls fs sm,
-      NotFieldMapper__to_schema s2s defs_store rec (mapper_obj mc (fields_obj cls fs)) sm
-      = (J <- rec fs sm ;; Ok (PDict [(PStr (s2p "not"), J)])).
-  Proof. exact (generated_NotFieldMapper_to_schema s2s defs_store). Qed.
-
-  Theorem C08_src_AnyOfMapper : forall rec mc fs sm,
-      AnyOfMapper__to_schema s2s defs_store rec (mapper_obj mc (field_obj pat_text (FAnyOf fs))) sm
-      = match fs with
-        | [g; FNone] => rec (field_obj pat_text g) sm
-        | _ => (J <- rec (PList (map (field_obj pat_text) fs)) sm ;; Ok (PDict [(PStr (s2p "anyOf"), J)]))
-        end.
-  Proof. exact (generated_AnyOfMapper_to_schema pat_text s2s defs_store). Qed.
-
-  Theorem C08_src_map_class_reference : forall rec c d x,
-      s2s (cls_val c) PNone = Ok (PTuple [d; x]) ->
-      defs_store (PStr c) d = Ok tt ->
-      map_class_reference s2s defs_store rec (field_obj pat_text (FClassRef c)) = Ok (jschema pat_text (FClassRef c)).
-  Proof. exact (generated_map_class_reference pat_text s2s defs_store). Qed.
-End C08_src.
-
-Print Assumptions C08_src_to_schema.
-Print Assumptions C08_src_unmappable_raises.
-Print Assumptions C08_src_get_mapper.
-Print Assumptions C08_src_NumberMapper.
-Print Assumptions C08_src_IntegerMapper.
-Print Assumptions C08_src_StringMapper.
-Print Assumptions C08_src_BooleanMapper.
-Print Assumptions C08_src_ArrayMapper_seq.
-Print Assumptions C08_src_ArrayMapper_tuple.
-Print Assumptions C08_src_ArrayMapper_set.
-Print Assumptions C08_src_MapMapper_any.
-Print Assumptions C08_src_MapMapper_kv.
-Print Assumptions C08_src_MapMapper_badkey.
-Print Assumptions C08_src_EnumMapper_lit.
-Print Assumptions C08_src_EnumMapper_cls.
-Print Assumptions C08_src_AllOfMapper.
-Print Assumptions C08_src_OneOfMapper.
-Print Assumptions C08_src_NotFieldMapper.
-Print Assumptions C08_src_AnyOfMapper.
-Print Assumptions C08_src_map_class_reference.
-
-(* the hypotheses are satisfiable by a non-trivial declaration (and the disagreement on an empty key pattern) *)
-Example C08_src_satisfiable :
-  mappable ex_field = true /\ keys_text_ok ex_pat_text ex_field = true /\ refs_ok ex_s2s ex_field /\
-  (forall k v, ex_store k v = Ok tt) /\ (cfuel ex_field <= 6)%nat /\
-  convert_to_schema ex_s2s ex_store 6 (field_obj ex_pat_text ex_field) PNone
-  = Ok (sch_json ex_pat_text (fschema ex_field)).
-Proof. exact side_conditions_satisfiable. Qed.
-=======
 (* ------------------------------------------------------------------ non-vacuity of the class-level theorems *)
 
 Definition fd (n : string) (f : field) (d : option pyval) : fdecl :=
@@ -488,4 +317,175 @@ Proof.
     split; vm_compute; reflexivity.
 Qed.
 
-(* ===============================================================================================
+(* ------------------------------------------------------------------ the tie to the source of the per-field schema mappers (generated layer) *)
+(* Property C08 — the tie of the hand-written model Schema/ToSchema.v (fschema, mappable), on which the C08
+   theorems are proved, to the CURRENT text of typedpy/json_schema/json_schema_mapping.py.
+   Gen/SchemaSrc.v is the translation of get_mapper / convert_to_schema / _map_class_reference / every
+   *Mapper.to_schema, re-generated from the source on every run (harness/genmods/py2v_schema.py); these theorems
+   (proved in Schema/SchemaSrcProofs.v) say that it computes the hand model, for EVERY declaration.
+   [ei] is the enum-class table of the model (per class: mixed-in primitive type, serialization_by_value). *)
+From Coq Require Import ZArith NArith String List.
+Import ListNotations.
+From TP Require Import Base.PyVal Base.PyOps Base.PyOps2 Base.PyOpsSchema Fields.FieldAst
+     Schema.Draft4 Schema.ToSchema Gen.SchemaSrc Schema.SchemaSrcProofs.
+
+Section C08_src.
+  Variable pat_text : N -> pystr.                         (* the text of a pattern id *)
+  Variable ei : einfo_t.                                  (* the enum classes: mix-in kind, by-value flag *)
+  Variable s2s : pyval -> pyval -> res pyval.             (* structure_to_schema(cls, definitions, sm) *)
+  Variable defs_store : pyval -> pyval -> res unit.       (* definitions[k] = v *)
+  Hypothesis defs_store_ok : forall k v, defs_store k v = Ok tt.
+
+  (* convert_to_schema, as the source is written now, on the object of a declaration the hand model calls mappable:
+     returns exactly the rendering of fschema (same keys, same order, same values) *)
+  Theorem C08_src_to_schema : forall f,
+      mappable ei f = true -> keys_text_ok pat_text f = true -> refs_ok s2s f ->
+      forall fuel sm, (cfuel f <= fuel)%nat ->
+      convert_to_schema s2s defs_store fuel (field_obj pat_text ei f) sm = Ok (sch_json pat_text (fschema ei f)).
+  Proof. exact (generated_convert_to_schema pat_text ei s2s defs_store defs_store_ok). Qed.
+
+  (* ... and on one it calls unmappable: raises TypeError / NotImplementedError *)
+  Theorem C08_src_unmappable_raises : forall f,
+      mappable ei f = false -> lits_plain f = true -> keys_text_ok pat_text f = true -> refs_ok s2s f ->
+      forall fuel sm, (cfuel f <= fuel)%nat ->
+      exists e, convert_to_schema s2s defs_store fuel (field_obj pat_text ei f) sm = Raise e /\ schema_exn e = true.
+  Proof. exact (generated_convert_to_schema_raises pat_text ei s2s defs_store defs_store_ok). Qed.
+
+  (* get_mapper: the mapper class of every field class (none for Deque, NoneField, Anything) *)
+  Theorem C08_src_get_mapper_fun : forall f,
+      get_mapper (cls_val (field_pyclass f))
+      = match mapper_of f with Some m => Ok (cls_val m) | None => Raise NotImplementedError end.
+  Proof. exact generated_get_mapper. Qed.
+
+  (* the per-mapper statements (rec = convert_to_schema; mc = whatever class the mapper object has) *)
+  Theorem C08_src_NumberMapper : forall rec mc k s c sm,
+      NumberMapper__to_schema s2s defs_store rec (mapper_obj mc (field_obj pat_text ei (FNumber k s c))) sm
+      = Ok (jkws pat_text (KType TNumber :: tl (num_kws k s c))).
+  Proof. exact (generated_NumberMapper_to_schema pat_text ei s2s defs_store). Qed.
+
+  Theorem C08_src_IntegerMapper : forall rec mc s c sm,
+      IntegerMapper__to_schema s2s defs_store rec (mapper_obj mc (field_obj pat_text ei (FNumber KInteger s c))) sm
+      = Ok (jschema pat_text ei (FNumber KInteger s c)).
+  Proof. exact (generated_IntegerMapper_to_schema pat_text ei s2s defs_store). Qed.
+
+  Theorem C08_src_StringMapper : forall rec mc c sm,
+      StringMapper__to_schema s2s defs_store rec (mapper_obj mc (field_obj pat_text ei (FString c))) sm
+      = Ok (jschema pat_text ei (FString c)).
+  Proof. exact (generated_StringMapper_to_schema pat_text ei s2s defs_store). Qed.
+
+  Theorem C08_src_BooleanMapper : forall rec self sm,
+      BooleanMapper__to_schema s2s defs_store rec self sm = Ok (jschema pat_text ei FBoolean).
+  Proof. exact (generated_BooleanMapper_to_schema pat_text ei s2s defs_store). Qed.
+
+  Theorem C08_src_ArrayMapper_seq : forall rec mc k items sz u add sm,
+      ArrayMapper__to_schema s2s defs_store rec (mapper_obj mc (PStruct (seq_class k) (seq_attrs items sz u add))) sm
+      = (J <- rec items sm ;;
+         Ok (PDict (map (kw_json pat_text) ([KType TArray] ++ uniq_kws u ++ optl add KAddItems ++ size_kws sz)
+                    ++ items_entry J))).
+  Proof. exact (generated_ArrayMapper_to_schema_seq pat_text s2s defs_store). Qed.
+
+  Theorem C08_src_ArrayMapper_tuple : forall rec mc items u sm,
+      ArrayMapper__to_schema s2s defs_store rec
+        (mapper_obj mc (PStruct (s2p "Tuple") [(s2p "items", items); (s2p "uniqueItems", otrue u)])) sm
+      = (J <- rec items sm ;;
+         Ok (PDict (map (kw_json pat_text) ([KType TArray] ++ uniq_kws u ++ [KAddItems false]) ++ items_entry J))).
+  Proof. exact (generated_ArrayMapper_to_schema_tuple pat_text s2s defs_store). Qed.
+
+  Theorem C08_src_ArrayMapper_set : forall rec mc imm items sz sm,
+      ArrayMapper__to_schema s2s defs_store rec
+        (mapper_obj mc (PStruct (set_class imm) ((s2p "items", items) :: size_attrs sz))) sm
+      = (J <- rec items sm ;;
+         Ok (PDict (map (kw_json pat_text) ([KType TArray; KUnique true] ++ size_kws sz) ++ items_entry J))).
+  Proof. exact (generated_ArrayMapper_to_schema_set pat_text s2s defs_store). Qed.
+
+  Theorem C08_src_MapMapper_any : forall rec mc sz sm,
+      MapMapper__to_schema s2s defs_store rec (mapper_obj mc (map_obj PNone sz)) sm = Ok (jschema pat_text ei (FMapAny sz)).
+  Proof. exact (generated_MapMapper_to_schema_any pat_text ei s2s defs_store). Qed.
+
+  Theorem C08_src_MapMapper_kv : forall rec mc c V sz sm,
+      key_text_ok pat_text c = true ->
+      (forall J, rec V sm = Ok J -> exists d D, J = PDict (d :: D)) ->
+      MapMapper__to_schema s2s defs_store rec
+        (mapper_obj mc (map_obj (PList [field_obj pat_text ei (FString c); V]) sz)) sm
+      = (J <- rec V sm ;;
+         Ok (PDict ([kw_json pat_text (KType TObject)]
+                    ++ [(PStr (s2p (if key_constrained c then "patternProperties" else "additionalProperties")), J)]
+                    ++ map (kw_json pat_text) (size_kws sz)))).
+  Proof. exact (generated_MapMapper_to_schema_kv pat_text ei s2s defs_store). Qed.
+
+  Theorem C08_src_MapMapper_badkey : forall rec mc kf V sz sm,
+      match kf with FString _ => false | _ => true end = true ->
+      MapMapper__to_schema s2s defs_store rec (mapper_obj mc (map_obj (PList [field_obj pat_text ei kf; V]) sz)) sm
+      = Raise TypeError.
+  Proof. exact (generated_MapMapper_to_schema_badkey pat_text ei s2s defs_store). Qed.
+
+  Theorem C08_src_EnumMapper_lit : forall rec mc vs sm,
+      forallb plain_lit vs = true ->
+      EnumMapper__to_schema s2s defs_store rec (mapper_obj mc (field_obj pat_text ei (FEnumLit vs))) sm
+      = if mappable ei (FEnumLit vs) then Ok (jschema pat_text ei (FEnumLit vs)) else Raise TypeError.
+  Proof. exact (generated_EnumMapper_to_schema_lit pat_text ei s2s defs_store). Qed.
+
+  Theorem C08_src_EnumMapper_cls : forall rec mc cls ms sm,
+      EnumMapper__to_schema s2s defs_store rec (mapper_obj mc (field_obj pat_text ei (FEnumCls cls ms))) sm
+      = Ok (jschema pat_text ei (FEnumCls cls ms)).
+  Proof. exact (generated_EnumMapper_to_schema_cls pat_text ei s2s defs_store). Qed.
+
+  Theorem C08_src_AllOfMapper : forall rec mc cls fs sm,
+      AllOfMapper__to_schema s2s defs_store rec (mapper_obj mc (fields_obj cls fs)) sm
+      = (J <- rec fs sm ;; Ok (PDict [(PStr (s2p "allOf"), J)])).
+  Proof. exact (generated_AllOfMapper_to_schema s2s defs_store). Qed.
+
+  Theorem C08_src_OneOfMapper : forall rec mc cls fs sm,
+      OneOfMapper__to_schema s2s defs_store rec (mapper_obj mc (fields_obj cls fs)) sm
+      = (J <- rec fs sm ;; Ok (PDict [(PStr (s2p "oneOf"), J)])).
+  Proof. exact (generated_OneOfMapper_to_schema s2s defs_store). Qed.
+
+  Theorem C08_src_NotFieldMapper : forall rec mc cls fs sm,
+      NotFieldMapper__to_schema s2s defs_store rec (mapper_obj mc (fields_obj cls fs)) sm
+      = (J <- rec fs sm ;; Ok (PDict [(PStr (s2p "not"), J)])).
+  Proof. exact (generated_NotFieldMapper_to_schema s2s defs_store). Qed.
+
+  Theorem C08_src_AnyOfMapper : forall rec mc fs sm,
+      AnyOfMapper__to_schema s2s defs_store rec (mapper_obj mc (field_obj pat_text ei (FAnyOf fs))) sm
+      = match fs with
+        | [g; FNone] => rec (field_obj pat_text ei g) sm
+        | _ => (J <- rec (PList (map (field_obj pat_text ei) fs)) sm ;; Ok (PDict [(PStr (s2p "anyOf"), J)]))
+        end.
+  Proof. exact (generated_AnyOfMapper_to_schema pat_text ei s2s defs_store). Qed.
+
+  Theorem C08_src_map_class_reference : forall rec c d x,
+      s2s (cls_val c) PNone = Ok (PTuple [d; x]) ->
+      defs_store (PStr c) d = Ok tt ->
+      map_class_reference s2s defs_store rec (field_obj pat_text ei (FClassRef c)) = Ok (jschema pat_text ei (FClassRef c)).
+  Proof. exact (generated_map_class_reference pat_text ei s2s defs_store). Qed.
+End C08_src.
+
+Print Assumptions C08_src_to_schema.
+Print Assumptions C08_src_unmappable_raises.
+Print Assumptions C08_src_get_mapper_fun.
+Print Assumptions C08_src_NumberMapper.
+Print Assumptions C08_src_IntegerMapper.
+Print Assumptions C08_src_StringMapper.
+Print Assumptions C08_src_BooleanMapper.
+Print Assumptions C08_src_ArrayMapper_seq.
+Print Assumptions C08_src_ArrayMapper_tuple.
+Print Assumptions C08_src_ArrayMapper_set.
+Print Assumptions C08_src_MapMapper_any.
+Print Assumptions C08_src_MapMapper_kv.
+Print Assumptions C08_src_MapMapper_badkey.
+Print Assumptions C08_src_EnumMapper_lit.
+Print Assumptions C08_src_EnumMapper_cls.
+Print Assumptions C08_src_AllOfMapper.
+Print Assumptions C08_src_OneOfMapper.
+Print Assumptions C08_src_NotFieldMapper.
+Print Assumptions C08_src_AnyOfMapper.
+Print Assumptions C08_src_map_class_reference.
+
+(* the hypotheses are satisfiable by a non-trivial declaration (and the disagreement on an empty key pattern) *)
+Example C08_src_satisfiable :
+  mappable src_ex_ei src_ex_field = true /\ keys_text_ok src_ex_pat_text src_ex_field = true /\
+  refs_ok src_ex_s2s src_ex_field /\
+  (forall k v, src_ex_store k v = Ok tt) /\ (cfuel src_ex_field <= 6)%nat /\
+  convert_to_schema src_ex_s2s src_ex_store 6 (field_obj src_ex_pat_text src_ex_ei src_ex_field) PNone
+  = Ok (sch_json src_ex_pat_text (fschema src_ex_ei src_ex_field)).
+Proof. exact side_conditions_satisfiable. Qed.
